@@ -480,13 +480,6 @@ class FComponent(Sequence):
         value.is_tstring = is_tstring
         return value
 
-    def replace(self, other, recursive=True):
-        super().replace(other, recursive)
-        for attr in self._extra_kwargs:
-            if hasattr(other, attr):
-                setattr(self, attr, getattr(other, attr))
-        return self
-
     def __repr__(self):
         return "hy.models.FComponent({})".format(
             (super(Object, self).__repr__()
@@ -591,7 +584,21 @@ def recwrap(f):
     return lambda_to_return
 
 
-_wrappers[FComponent] = recwrap(FComponent)
+def _fcomponent_wrapper(fc):
+    # Like `recwrap(FComponent)`, but keep the extra attributes.
+    _seen.add(id(fc))
+    try:
+        return FComponent(
+            (as_model(x) for x in fc),
+            conversion=fc.conversion,
+            expression=fc.expression,
+            is_tstring=fc.is_tstring,
+        )
+    finally:
+        _seen.remove(id(fc))
+
+
+_wrappers[FComponent] = _fcomponent_wrapper
 if PY3_14:
     _wrappers[Interpolation] = lambda interp: FComponent(
             [as_model(interp.value), as_model(interp.format_spec)],
